@@ -323,7 +323,7 @@ Proof. split; [apply isort_In|vm_compute; reflexivity]. Qed.
 (* non-vacuity of C06_complete's hypotheses: two one-way cycles sharing a
    vertex plus a tail; the history ends with connect_cycles; 1 and 5 are
    mutually reachable, 1 and 6 are not *)
-Example C06_complete_nonvacuous :
+Example C06_complete_hyps_instance :
   let ops := [OneWay 1 2; OneWay 2 3; OneWay 3 1; OneWay 3 4; OneWay 4 5; OneWay 5 3;
               OneWay 5 6] in
   match exec isort init (ops ++ [Connect]) with
@@ -351,6 +351,323 @@ Proof.
     apply (R 3 1); simpl; auto 10; discriminate.
   - eexists. vm_compute. reflexivity.
   - eexists. vm_compute. reflexivity.
+Qed.
+
+(* =====================================================================================
+   NON-VACUITY (audit): every theorem of this file APPLIED (order := isort, ascending
+   iteration order) to one history over 9 labels that mixes two-way edges, one-way edges,
+   a set_verified BEFORE the merges, a query in the middle, and connect_cycles:
+       1 <-> 2, 8 <-> 2, 6 <-> 7 (two-way);  2 -> 3 -> 4 -> 2, 4 -> 5 (one-way);  verified: 4
+   before connect_cycles the classes are {1,2,8} {3} {4} {5} {6,7}; after it {1,2,3,4,8} {5} {6,7}
+   (the one-way cycle 2 -> 3 -> 4 -> 2 runs through the two-way class of 2); the verified flag
+   of 4 reaches 1.  a6_s = state before, a6_sC = state after connect_cycles. *)
+Definition a6_ops : list op :=
+  [TwoWay 1 2; OneWay 2 3; TwoWay 8 2; OneWay 3 4; SetVerified 4; QEquiv 1 4; OneWay 4 2;
+   OneWay 4 5; TwoWay 6 7].
+Definition a6_qs : list op := [QEquiv 1 4; QVerified 3; QFind 9; QPath 3 8].
+Definition a6_run (ops : list op) : db * list res :=
+  match exec isort init ops with Some p => p | None => (init, []) end.
+Definition a6_s : db := Eval vm_compute in fst (a6_run a6_ops).
+Definition a6_rs : list res := Eval vm_compute in snd (a6_run a6_ops).
+Definition a6_sC : db := Eval vm_compute in fst (a6_run (a6_ops ++ [Connect])).
+Definition a6_rsC : list res := Eval vm_compute in snd (a6_run (a6_ops ++ [Connect])).
+Definition a6_sQ : db := Eval vm_compute in fst (a6_run (a6_ops ++ Connect :: a6_qs)).
+Definition a6_rsQ : list res := Eval vm_compute in snd (a6_run (a6_ops ++ Connect :: a6_qs)).
+
+Lemma a6_exec : exec isort init a6_ops = Some (a6_s, a6_rs).
+Proof. vm_compute. reflexivity. Qed.
+Lemma a6_execC : exec isort init (a6_ops ++ [Connect]) = Some (a6_sC, a6_rsC).
+Proof. vm_compute. reflexivity. Qed.
+Lemma a6_execQ : exec isort init (a6_ops ++ Connect :: a6_qs) = Some (a6_sQ, a6_rsQ).
+Proof. vm_compute. reflexivity. Qed.
+Lemma a6_connect : connect_cycles isort a6_s = Some a6_sC.
+Proof. vm_compute. reflexivity. Qed.
+(* the history is not degenerate: the middle query answered False, the final ones True *)
+Example a6_results :
+  a6_rs = [RNone; RNone; RNone; RNone; RNone; RBool false; RNone; RNone; RNone] /\
+  a6_rsQ = a6_rs ++ [RNone; RBool true; RBool true; RLabel 9; RPath (PathOk [3; 4; 2; 8])].
+Proof. split; reflexivity. Qed.
+
+(* mutual reachability of 1 and 4 along recorded edges; 2 -> 1 is the two-way edge
+   add_two_way_edge(1,2) taken backwards.  Stated for any history containing a6_ops. *)
+Lemma a6_rec ops x y :
+  (forall o, In o a6_ops -> In o ops) -> x <> y ->
+  In (TwoWay x y) a6_ops \/ In (TwoWay y x) a6_ops \/ In (OneWay x y) a6_ops ->
+  clos_refl_trans Z (recorded ops) x y.
+Proof. intros Hs N H. apply rt_step. split; auto. intuition. Qed.
+Lemma a6_r14 ops : (forall o, In o a6_ops -> In o ops) -> clos_refl_trans Z (recorded ops) 1 4.
+Proof.
+  intros Hs.
+  apply rt_trans with 2; [apply (a6_rec ops 1 2 Hs); [discriminate|simpl; auto]|].
+  apply rt_trans with 3; [apply (a6_rec ops 2 3 Hs); [discriminate|simpl; auto 10]|].
+  apply (a6_rec ops 3 4 Hs); [discriminate|simpl; auto 10].
+Qed.
+Lemma a6_r41 ops : (forall o, In o a6_ops -> In o ops) -> clos_refl_trans Z (recorded ops) 4 1.
+Proof.
+  intros Hs.
+  apply rt_trans with 2; [apply (a6_rec ops 4 2 Hs); [discriminate|simpl; auto 15]|].
+  apply (a6_rec ops 2 1 Hs); [discriminate|simpl; auto].
+Qed.
+Lemma a6_sub_self : forall o, In o a6_ops -> In o a6_ops.
+Proof. auto. Qed.
+Lemma a6_sub_app l : forall o, In o a6_ops -> In o (a6_ops ++ l).
+Proof. intros o H. apply in_app_iff. auto. Qed.
+
+(* --- the answer of `equivalent` *)
+Example C06_equivalent_is_same_nonvacuous : same a6_sC 1 4 /\ ~ same a6_sC 1 5 /\ ~ same a6_s 1 4.
+Proof.
+  split; [|split].
+  - refine (proj1 (C06_equivalent_is_same a6_sC 1 4 _ true _) eq_refl). vm_compute. reflexivity.
+  - intros H. refine (_ (proj2 (C06_equivalent_is_same a6_sC 1 5 _ false _) H));
+      [discriminate|vm_compute; reflexivity].
+  - intros H. refine (_ (proj2 (C06_equivalent_is_same a6_s 1 4 _ false _) H));
+      [discriminate|vm_compute; reflexivity].
+Qed.
+
+(* helpers: `same` / `~ same` on a concrete state by running `equivalent` (through the theorem) *)
+Lemma a6_same s a b s' : equivalent s a b = Some (s', true) -> same s a b.
+Proof. intros Q. exact (proj1 (C06_equivalent_is_same s a b s' true Q) eq_refl). Qed.
+Lemma a6_not_same s a b s' : equivalent s a b = Some (s', false) -> ~ same s a b.
+Proof. intros Q H. apply (C06_equivalent_is_same s a b s' false Q) in H. discriminate H. Qed.
+
+(* --- soundness *)
+Example C06_sound_nonvacuous :
+  clos_refl_trans Z (recorded (a6_ops ++ [Connect])) 3 8 /\
+  clos_refl_trans Z (recorded (a6_ops ++ [Connect])) 8 3.
+Proof.
+  eapply (C06_sound isort isort_In (a6_ops ++ [Connect]) a6_sC a6_rsC 3 8 _ a6_execC).
+  vm_compute. reflexivity.
+Qed.
+
+Example C06_edges_recorded_nonvacuous :
+  recorded (a6_ops ++ [Connect]) 2 3 /\ ~ recorded (a6_ops ++ [Connect]) 3 2 /\
+  edge (vertices a6_sC) 2 1 /\ ~ edge (vertices a6_sC) 5 4.
+Proof.
+  pose proof (C06_edges_recorded isort isort_In (a6_ops ++ [Connect]) a6_sC a6_rsC) as H.
+  split; [|split; [|split]].
+  - apply (H 2 3 a6_execC). vm_compute. auto.
+  - intros R. apply (H 3 2 a6_execC) in R. vm_compute in R. destruct R as [R|[]]. discriminate R.
+  - apply (H 2 1 a6_execC). split; [discriminate|]. simpl; auto.
+  - intros E. apply (H 5 4 a6_execC) in E. destruct E as (_ & [E|[E|E]]); simpl in E;
+      repeat (destruct E as [E|E]; [discriminate E|]); destruct E.
+Qed.
+
+Example C06_reference_scc_correct_nonvacuous :
+  (reach (vertices a6_sC) 1 4 /\ reach (vertices a6_sC) 4 1) /\
+  ~ (reach (vertices a6_sC) 1 5 /\ reach (vertices a6_sC) 5 1).
+Proof.
+  split.
+  - apply (C06_reference_scc_correct (vertices a6_sC) 1 4 true); reflexivity.
+  - intros H. apply (C06_reference_scc_correct (vertices a6_sC) 1 5 false) in H;
+      [discriminate H|reflexivity].
+Qed.
+
+(* --- union-find canonicity.  In a6_s the label 1 hangs under the root 2 *)
+Example C06_uf_find_canonical_nonvacuous :
+  exists s1, find a6_s 1 = Some (s1, 2) /\
+    (exists s2, find s1 2 = Some (s2, 2)) /\ (exists s2, find s1 1 = Some (s2, 2)) /\
+    (forall s2 r', find s1 2 = Some (s2, r') -> r' = 2) /\
+    (forall s2 r', find s1 1 = Some (s2, r') -> r' = 2).
+Proof.
+  eexists. split; [vm_compute; reflexivity|].
+  split; [eexists; vm_compute; reflexivity|]. split; [eexists; vm_compute; reflexivity|].
+  eapply (C06_uf_find_canonical a6_s 1 _ 2). vm_compute. reflexivity.
+Qed.
+
+Example C06_uf_equivalent_compares_roots_nonvacuous :
+  (* 8 and 1: answer True, roots 2 = 2;  8 and 7: answer False, roots 2 <> 7 *)
+  (true = true <-> 2 = 2) /\ (false = true <-> 2 = 7).
+Proof.
+  split.
+  - eapply (C06_uf_equivalent_compares_roots a6_s 8 1 _ true _ 2 _ 2); vm_compute; reflexivity.
+  - eapply (C06_uf_equivalent_compares_roots a6_s 8 7 _ false _ 2 _ 7); vm_compute; reflexivity.
+Qed.
+
+Example C06_uf_partition_nonvacuous :
+  (forall a, same a6_sC a a) /\ (forall a b, same a6_sC a b -> same a6_sC b a) /\
+  (forall a b c, same a6_sC a b -> same a6_sC b c -> same a6_sC a c).
+Proof. exact (C06_uf_partition isort isort_In (a6_ops ++ [Connect]) a6_sC a6_rsC a6_execC). Qed.
+
+(* a path query on a fresh label pair: the state DOES change (entry for 9, touched sets),
+   the partition / flags / edges do not *)
+Example C06_uf_queries_change_nothing_nonvacuous :
+  exists s', step isort a6_sC (QPath 3 8) = Some (s', RPath (PathOk [3; 4; 2; 8])) /\ s' <> a6_sC /\
+  (forall x y, same s' x y <-> same a6_sC x y) /\ verified s' = verified a6_sC /\
+  (forall x y, edge (vertices s') x y <-> edge (vertices a6_sC) x y).
+Proof.
+  eexists. split; [vm_compute; reflexivity|]. split; [discriminate|].
+  eapply (C06_uf_queries_change_nothing isort a6_sC (QPath 3 8) _ (RPath (PathOk [3; 4; 2; 8]))).
+  - right. right. right. exists 3, 8. reflexivity.
+  - vm_compute. reflexivity.
+Qed.
+
+(* merging the singleton class {3} with the class {6,7} *)
+Example C06_uf_merge_exact_nonvacuous :
+  exists s', add_two_way a6_s 3 6 = Some s' /\
+    (forall x y, same s' x y <->
+       same a6_s x y \/ (same a6_s x 3 /\ same a6_s y 6) \/ (same a6_s x 6 /\ same a6_s y 3)) /\
+    same s' 3 7 /\ ~ same a6_s 3 7 /\ ~ same s' 3 1.
+Proof.
+  eexists. split; [vm_compute; reflexivity|].
+  match goal with |- ?A /\ _ => assert (H : A) end.
+  { eapply (C06_uf_merge_exact isort isort_In a6_ops a6_s a6_rs 3 6 _ a6_exec).
+    vm_compute. reflexivity. }
+  split; [exact H|]. split; [|split].
+  - apply H. right. left. split; eapply a6_same; vm_compute; reflexivity.
+  - eapply a6_not_same; vm_compute; reflexivity.
+  - intros X. apply H in X. destruct X as [X|[[_ X]|[X _]]]; revert X; eapply a6_not_same;
+      vm_compute; reflexivity.
+Qed.
+
+Example C06_connect_cycles_monotone_nonvacuous :
+  (forall x y, same a6_s x y -> same a6_sC x y) /\
+  (forall x y, edge (vertices a6_sC) x y <-> edge (vertices a6_s) x y).
+Proof.
+  exact (C06_connect_cycles_monotone isort isort_In a6_ops a6_s a6_rs a6_sC a6_exec a6_connect).
+Qed.
+(* the inclusion is strict here *)
+Example C06_connect_cycles_monotone_value :
+  same a6_s 1 8 /\ same a6_sC 1 8 /\ ~ same a6_s 1 4 /\ same a6_sC 1 4.
+Proof.
+  assert (H : same a6_s 1 8) by (eapply a6_same; vm_compute; reflexivity).
+  split; [exact H|]. split; [apply C06_connect_cycles_monotone_nonvacuous; exact H|].
+  split; [eapply a6_not_same|eapply a6_same]; vm_compute; reflexivity.
+Qed.
+
+(* --- verified: 4 was marked before connect_cycles merged it with 1; 6 is in no marked class *)
+Example C06_verified_nonvacuous :
+  (exists b, marked (a6_ops ++ [Connect]) b /\ same a6_sC 1 b) /\
+  ~ (exists b, marked (a6_ops ++ [Connect]) b /\ same a6_sC 6 b) /\
+  ~ (exists b, marked a6_ops b /\ same a6_s 1 b).
+Proof.
+  split; [|split].
+  - eapply (C06_verified isort isort_In (a6_ops ++ [Connect]) a6_sC a6_rsC 1 _ true a6_execC);
+      [vm_compute|]; reflexivity.
+  - intros H.
+    eapply (C06_verified isort isort_In (a6_ops ++ [Connect]) a6_sC a6_rsC 6 _ false a6_execC) in H;
+      [discriminate H|vm_compute; reflexivity].
+  - intros H.
+    eapply (C06_verified isort isort_In a6_ops a6_s a6_rs 1 _ false a6_exec) in H;
+      [discriminate H|vm_compute; reflexivity].
+Qed.
+
+(* --- explanation paths.  3 ~> 8 goes 3 -> 4 -> 2 (one-way) and 2 -> 8 (two-way, backwards) *)
+Example C06_path_nonvacuous :
+  (PathOk [3; 4; 2; 8] = PathKeyError <-> ~ same a6_sC 3 8) /\
+  (forall p, PathOk [3; 4; 2; 8] = PathOk p ->
+     hd_error p = Some 3 /\ last p 0 = 8 /\ epath (recorded (a6_ops ++ [Connect])) p).
+Proof.
+  eapply (C06_path isort isort_In (a6_ops ++ [Connect]) a6_sC a6_rsC 3 8 _ _ a6_execC).
+  vm_compute. reflexivity.
+Qed.
+Example C06_path_value :
+  epath (recorded (a6_ops ++ [Connect])) [3; 4; 2; 8] /\
+  (* KeyError branch: 1 and 5 are not equivalent (5 is reachable from 1, not back) *)
+  (exists s', find_path isort a6_sC 1 5 = Some (s', PathKeyError)) /\ ~ same a6_sC 1 5.
+Proof.
+  split; [apply (proj2 C06_path_nonvacuous [3; 4; 2; 8] eq_refl)|].
+  split; [eexists; vm_compute; reflexivity|].
+  eapply (C06_path isort isort_In (a6_ops ++ [Connect]) a6_sC a6_rsC 1 5 _ PathKeyError a6_execC);
+    [vm_compute|]; reflexivity.
+Qed.
+
+(* --- completeness right after connect_cycles *)
+Example C06_complete_nonvacuous : same a6_sC 1 4.
+Proof.
+  exact (C06_complete isort isort_In a6_ops a6_sC a6_rsC 1 4 a6_execC
+           (a6_r14 _ (a6_sub_app _)) (a6_r41 _ (a6_sub_app _))).
+Qed.
+
+Example C06_complete_connect_step_nonvacuous : same a6_sC 1 4.
+Proof.
+  exact (C06_complete_connect_step isort isort_In a6_ops a6_s a6_rs a6_sC 1 4 a6_exec a6_connect
+           (a6_r14 _ a6_sub_self) (a6_r41 _ a6_sub_self)).
+Qed.
+
+Example C06_complete_equivalent_nonvacuous :
+  forall s' e, equivalent a6_sC 1 4 = Some (s', e) -> e = true.
+Proof.
+  intros s' e.
+  exact (C06_complete_equivalent isort isort_In a6_ops a6_sC a6_rsC 1 4 s' e a6_execC
+           (a6_r14 _ (a6_sub_app _)) (a6_r41 _ (a6_sub_app _))).
+Qed.
+(* the premise of the implication above is met: `equivalent` does answer *)
+Example C06_complete_equivalent_value : exists s', equivalent a6_sC 1 4 = Some (s', true).
+Proof. eexists. vm_compute. reflexivity. Qed.
+
+(* both directions / both answers *)
+Example C06_classes_are_sccs_nonvacuous :
+  (true = true <->
+   clos_refl_trans Z (recorded (a6_ops ++ [Connect])) 1 4 /\
+   clos_refl_trans Z (recorded (a6_ops ++ [Connect])) 4 1) /\
+  (false = true <->
+   clos_refl_trans Z (recorded (a6_ops ++ [Connect])) 1 5 /\
+   clos_refl_trans Z (recorded (a6_ops ++ [Connect])) 5 1).
+Proof.
+  split.
+  - eapply (C06_classes_are_sccs isort isort_In a6_ops a6_sC a6_rsC 1 4 _ true a6_execC).
+    vm_compute. reflexivity.
+  - eapply (C06_classes_are_sccs isort isort_In a6_ops a6_sC a6_rsC 1 5 _ false a6_execC).
+    vm_compute. reflexivity.
+Qed.
+(* consequence: 5 does not reach 1 although 1 reaches 5 *)
+Example C06_classes_are_sccs_value :
+  ~ clos_refl_trans Z (recorded (a6_ops ++ [Connect])) 5 1.
+Proof.
+  intros H. assert (X : false = true); [|discriminate X].
+  apply (proj2 C06_classes_are_sccs_nonvacuous). split; [|exact H].
+  apply rt_trans with 4; [apply (a6_r14 _ (a6_sub_app _))|].
+  apply (a6_rec _ 4 5 (a6_sub_app _)); [discriminate|simpl; auto 15].
+Qed.
+
+Example C06_classes_are_sccs_after_queries_nonvacuous :
+  (true = true <->
+   clos_refl_trans Z (recorded (a6_ops ++ Connect :: a6_qs)) 3 8 /\
+   clos_refl_trans Z (recorded (a6_ops ++ Connect :: a6_qs)) 8 3) /\
+  (false = true <->
+   clos_refl_trans Z (recorded (a6_ops ++ Connect :: a6_qs)) 9 1 /\
+   clos_refl_trans Z (recorded (a6_ops ++ Connect :: a6_qs)) 1 9).
+Proof.
+  assert (F : Forall is_query a6_qs) by (repeat constructor).
+  split.
+  - eapply (C06_classes_are_sccs_after_queries isort isort_In a6_ops a6_qs a6_sQ a6_rsQ 3 8 _ true
+              F a6_execQ). vm_compute. reflexivity.
+  - eapply (C06_classes_are_sccs_after_queries isort isort_In a6_ops a6_qs a6_sQ a6_rsQ 9 1 _ false
+              F a6_execQ). vm_compute. reflexivity.
+Qed.
+
+(* --- the partial statements.  1 and 8 are linked by TwoWay 1 2 and TwoWay 8 2 (the second
+   taken backwards: symmetric closure) *)
+Example C06_complete_partial_nonvacuous : same a6_s 1 8.
+Proof.
+  apply (C06_complete_partial isort isort_In a6_ops a6_s a6_rs 1 8 a6_exec).
+  apply rst_trans with 2; [apply rst_step; unfold twoway; simpl; auto|].
+  apply rst_sym. apply rst_step. unfold twoway; simpl; auto.
+Qed.
+
+Example C06_complete_partial_edges_kept_nonvacuous :
+  same a6_s 2 3 \/
+  exists k l e, In (k, l) (oneway a6_s) /\ In e l /\ same a6_s k 2 /\ same a6_s e 3.
+Proof.
+  apply (C06_complete_partial_edges_kept isort isort_In a6_ops a6_s a6_rs 2 3 a6_exec).
+  split; [discriminate|]. simpl; auto.
+Qed.
+(* which branch: before connect_cycles the recorded edge 2 -> 3 is NOT inside a class (right
+   branch, table entry 2 |-> {3}); the recorded edge 8 -> 2 is inside a class (left branch) and
+   no table entry covers it *)
+Example C06_complete_partial_edges_kept_value :
+  ~ same a6_s 2 3 /\ In (2, [3]) (oneway a6_s) /\
+  same a6_s 8 2 /\
+  ~ (exists k l e, In (k, l) (oneway a6_s) /\ In e l /\ same a6_s k 8 /\ same a6_s e 2).
+Proof.
+  split; [eapply a6_not_same; vm_compute; reflexivity|]. split; [simpl; auto|].
+  split; [eapply a6_same; vm_compute; reflexivity|].
+  intros (k & l & e & Hin & He & Hk & Hse). simpl in Hin.
+  destruct Hin as [Hin|[Hin|[Hin|[]]]]; injection Hin as <- <-.
+  - (* entry 2 |-> {3}: 2 is in the class of 8, but 3 is not in the class of 2 *)
+    destruct He as [<-|[]]. revert Hse. eapply a6_not_same; vm_compute; reflexivity.
+  - revert Hk. eapply a6_not_same; vm_compute; reflexivity.
+  - revert Hk. eapply a6_not_same; vm_compute; reflexivity.
 Qed.
 
 Print Assumptions C06_equivalent_is_same.
